@@ -44,6 +44,39 @@ func (p *Process) Signal(sig Signal) error {
 
 func (p *Process) Kill() error { return p.Signal(Kill) }
 
+// ProcessState is what is known about the modelled process once it was waited for.
+type ProcessState struct{ ok, killed bool }
+
+func (p *ProcessState) Success() bool { return p != nil && p.ok && !p.killed }
+func (p *ProcessState) Exited() bool  { return p != nil && !p.killed }
+func (p *ProcessState) Pid() int      { return 1 }
+func (p *ProcessState) ExitCode() int {
+	switch {
+	case p == nil || p.killed:
+		return -1
+	case p.ok:
+		return 0
+	}
+	return 1
+}
+func (p *ProcessState) String() string {
+	switch {
+	case p == nil:
+		return "<nil>"
+	case p.killed:
+		return "signal: killed"
+	case p.ok:
+		return "exit status 0"
+	}
+	return "exit status 1"
+}
+
+// State returns the state of the modelled process after Wait.
+func State() *ProcessState {
+	ps := &vrt.W().Proc
+	return &ProcessState{ok: ps.ExitOK, killed: ps.Killed}
+}
+
 var errExit = errors.New("exit status 1")
 var errKilled = errors.New("signal: killed")
 
